@@ -2,6 +2,7 @@
 import hashlib
 import os
 import random
+import struct
 import shutil
 
 from .. import core, harness, datadir, model, oracles, layouts
@@ -19,7 +20,7 @@ RULE = ("for each (chain, layout, key): the plaintext data directory and a copy 
 QUICK_LENS = [1, 2, 3, 5, 7, 8, 9, 16, 31, 33, 64]
 
 
-def make_key(rng, n, cls):
+def make_key(rng, n, cls, magic=b"\xf9\xbe\xb4\xd9"):
     if cls == "zero":
         return bytes(n)
     if cls == "ff":
@@ -28,6 +29,21 @@ def make_key(rng, n, cls):
         k = bytearray(n)
         k[rng.randrange(n)] = 1 << rng.randrange(8)
         return bytes(k)
+    if cls in ("zeroprefix", "zerosuffix", "zeromiddle"):
+        # a run of zero bytes inside a non-zero key: the bytes under the run stay plaintext (e.g. the first magic of every file)
+        if n == 1:
+            return bytes([rng.randrange(1, 256)])
+        z = n // 2 if n < 8 else rng.choice([4, 4, n // 2, n - 1])
+        body = bytes(rng.randrange(1, 256) for _ in range(n - z))
+        if cls == "zeroprefix":
+            return bytes(z) + body
+        if cls == "zerosuffix":
+            return body + bytes(z)
+        cut = rng.randrange(1, len(body)) if len(body) > 1 else 0
+        return body[:cut] + bytes(z) + body[cut:]
+    if cls == "magic":
+        # the key starts with the coin's magic: every obfuscated file starts with zero bytes
+        return (magic + bytes(rng.randrange(1, 256) for _ in range(n)))[:n]
     k = rbytes(rng, n)
     return k if any(k) else b"\x01" * n
 
@@ -38,7 +54,7 @@ def case(spec):
     chain = layouts.layout_chain(crng, coin, spec.get("blocks", 12), big_every=4)
     lrng = random.Random("C11layout|%s|%s" % (spec["chain_seed"], spec["n"]))
     kw, desc, pl_index = layouts.make_layout(lrng, chain, coin, **spec["layout"])
-    key = make_key(lrng, spec["keylen"], spec["keycls"])
+    key = make_key(lrng, spec["keylen"], spec["keycls"], struct.pack("<I", COINS[spec["coin"]].magic))
     work = harness.fresh(os.path.join(spec["work"], "c%d" % spec["n"]))
     binary = core.build(spec.get("profile", "release"))
     v, counters = [], {"runs": 0}
@@ -87,11 +103,14 @@ def plan(chk):
     n = 0
     lay_pool = [dict(assign="single", gaps="random"), dict(assign="reversed", nfiles=2, gaps="zeros"), dict(assign="random", nfiles=3, gaps="mixed"),
                 dict(assign="round_robin", nfiles=3, gaps="foreign"), dict(assign="interleaved2", nfiles=4, gaps="random", file_order="shuffled"),
-                dict(assign="contiguous", nfiles=2, gaps="unindexed", sparse=True), dict(assign="single", gaps="random", sparse=True, file_order="desc")]
+                dict(assign="contiguous", nfiles=2, gaps="unindexed", sparse=True), dict(assign="single", gaps="random", sparse=True, file_order="desc"),
+                # files as Bitcoin Core writes them: the first block's magic is the first thing in the file
+                dict(assign="contiguous", nfiles=2, gaps="none"), dict(assign="round_robin", nfiles=3, gaps="none", file_order="shuffled")]
     for ln in lens:
-        for cls in ("random", "zero", "ff") + (("onebit",) if chk.thorough else ()):
+        for cls in ("random", "zero", "ff") + (("onebit", "zeroprefix", "zerosuffix", "zeromiddle", "magic") if chk.thorough or ln in (4, 8, 64)
+                                               else (("zeroprefix", "zeromiddle", "magic", "zerosuffix")[ln % 4],)):
             n += 1
-            L = lay_pool[n % len(lay_pool)]
+            L = lay_pool[n % len(lay_pool)] if cls not in ("zeroprefix", "magic") or n % 2 else lay_pool[-1 - (n // 2) % 2]
             specs.append(dict(case="case", coin=COIN_NAMES[n % 8], chain_seed=chk.seed * 100 + n % 5, n=n, keylen=ln, keycls=cls, layout=L,
                               also=("unspentcsvdump" if n % 4 == 0 else ("balances" if n % 4 == 2 else None)),
                               profile="debug" if n % 7 == 0 else "release"))
@@ -99,7 +118,7 @@ def plan(chk):
         for i in range(300):
             n += 1
             specs.append(dict(case="case", coin=rng.choice(COIN_NAMES), chain_seed=chk.seed * 100 + 50 + i, n=n, keylen=rng.randint(1, 64),
-                              keycls=rng.choice(["random", "random", "onebit"]), layout=rng.choice(lay_pool), also=None, blocks=rng.choice([8, 12, 30])))
+                              keycls=rng.choice(["random", "random", "onebit", "zeroprefix", "zerosuffix", "zeromiddle", "magic"]), layout=rng.choice(lay_pool), also=None, blocks=rng.choice([8, 12, 30])))
     return specs
 
 
